@@ -118,7 +118,7 @@ Reach_TransitiveLoss == ~(\E a, b, c \in H : a # b /\ b # c /\ a # c /\ c \in in
                             /\ a \notin inval /\ b \notin inval)
 Reach_Reproved == ~(\E h \in H : h \in ever /\ Proven(h))
 
-Bound == nops < MaxOps
+Bound == nops <= MaxOps   \* successors that violate a CONSTRAINT are dropped before ACTION_CONSTRAINT prints them
 View    == <<js, inval, ever, everDead, nodes, deps>>
 ViewGen == <<js, inval, ever, nodes, deps>>
 
